@@ -63,6 +63,11 @@ func RecvFilterList(c *rsyncwire.Conn) (*filterRuleList, error) {
 			return nil, err
 		}
 		l.addRule(fr)
+		if fr.flag&filtruleWild != 0 {
+			// Report an error to the peer instead of panicking
+			// once the rule is matched against a file name.
+			return nil, fmt.Errorf("wildcard filter rules not yet implemented: %q", line)
+		}
 	}
 	return &l, nil
 }
